@@ -218,7 +218,10 @@ def generate(rng, tier):
         else:
             opt = ','.join(('+' if v else '-') + k for k, v in sorted(defaults.items()))
             ops.append({'op': 'cli', 'argv': ['PATH:simpkg/m0.py', 'z0', '--verbose=%d' % rng.choice([0, 1, 3]), '--options=' + opt]})
-    return {'profile': ID, 'world': world, 'ops': ops, 'plan': [], 'env': env, 'twin_of': twin_of}
+    # (an object whose run ended by a propagating exception keeps its namespace: running it again is
+    # outside what is looked at here -- DESIGN.md 7.7 -- and the harness takes a fresh object)
+    return {'profile': ID, 'world': world, 'ops': ops, 'plan': [], 'env': env, 'twin_of': twin_of,
+            'recollect_after_propagation': True}
 
 
 # ----------------------------------------------------------------------------
